@@ -1,7 +1,10 @@
 #!/bin/bash
-# runs every thorough check in sequence and prints a one-line summary per property
-for p in C04 C06 C07 C11 C13 C18 C20 C05 C03 C02 C08 C09 C10 C12 C14 C15 C16 C17 C19; do
+# runs every thorough check in sequence and prints a one-line summary per property (rc = exit status of the check)
+for p in C01 C04 C06 C07 C11 C13 C18 C20 C05 C03 C02 C08 C09 C10 C12 C14 C15 C16 C17 C19; do
   s=$(date +%s)
-  out=$(./check $p --tier thorough 2>&1 | grep -E "VIOLATION|MACHINERY|tier=thorough" | tail -3)
-  echo "$p rc=$? $(( $(date +%s) - s ))s :: $out"
+  ./check $p --tier thorough > /tmp/thorough_$p.out 2>&1
+  rc=$?
+  out=$(grep -E "VIOLATION|MACHINERY|tier=thorough" /tmp/thorough_$p.out | tail -3)
+  echo "$p rc=$rc $(( $(date +%s) - s ))s :: $out"
+  rm -f /tmp/thorough_$p.out
 done
